@@ -171,14 +171,9 @@ class Engine:
         r = self.check(neg)
         if r == z3.sat:
             if self.prefer:
-                # same query with readability preferences; fall back to the plain model
-                self.solver.push()
-                try:
-                    self.solver.add(neg, *self.prefer)
-                    if self.check() == z3.sat:
-                        raise Violation(kind, self.solver.model(), info)
-                finally:
-                    self.solver.pop()
+                m = self._preferred_model([neg])
+                if m is not None:
+                    raise Violation(kind, m, info)
                 if self.check(neg) != z3.sat:
                     raise HarnessError("solver flip-flopped on a violated VC")
             raise Violation(kind, self.solver.model(), info)
@@ -211,14 +206,40 @@ class Engine:
             return
         self.vc_unknown += 1
 
+    def _preferred_model(self, extra):
+        """A model of PC + extra that satisfies as many of the readability preferences as a greedy pass keeps."""
+        self.solver.push()
+        try:
+            self.solver.add(*extra)
+            if self.check() != z3.sat:
+                return None
+            kept = 0
+            for p in self.prefer:
+                self.solver.push()
+                self.solver.add(p)
+                if self.check() == z3.sat:
+                    kept += 1           # keep it (stay inside this push level)
+                else:
+                    self.solver.pop()
+                    kept += 0
+                    continue
+            r = self.check()
+            m = self.solver.model() if r == z3.sat else None
+            return m
+        finally:
+            # unwind every level pushed above
+            while self.solver.num_scopes() > self._base_scopes:
+                self.solver.pop()
+
     def path_model(self):
         """Model of the current path condition (None if not shown sat); readable values preferred."""
         r = self.check(*self.lemmas)
         if r != z3.sat:
             return None
         if self.prefer:
-            if self.check(*(self.lemmas + self.prefer)) == z3.sat:
-                return self.solver.model()
+            m = self._preferred_model(list(self.lemmas))
+            if m is not None:
+                return m
             self.check(*self.lemmas)
         return self.solver.model()
 
@@ -229,6 +250,7 @@ class Engine:
             if self.paths + self.aborted >= self.max_paths:
                 raise Inconclusive("path budget")
             self.solver.push()
+            self._base_scopes = self.solver.num_scopes()
             self.pos = 0
             self._decided = {}
             self.prefer = []
